@@ -94,7 +94,7 @@ def run_model(drv, lines):
     return res
 
 
-def run_c(exe, lines, asan=False, timeout=120):
+def run_c(exe, lines, asan=False, timeout=None, abort_flag=None):
     """run the C harness on (id, line) pairs; survives crashes / hangs of single cases.
     returns (results, incidents) with incidents = [(id, what, detail)]"""
     results, incidents = {}, []
@@ -102,12 +102,16 @@ def run_c(exe, lines, asan=False, timeout=120):
     env = dict(os.environ)
     if asan:
         env.update(ASAN_ENV)
-    restarts = 0
+    restarts = hangs = 0
     while pending and restarts < 12:
+        if abort_flag and os.path.exists(abort_flag):
+            incidents.append((None, "skipped", "run skipped after repeated hangs of the C code elsewhere"))
+            break
+        tmo = timeout or (15 + 0.0008 * len(pending) * (3 if asan else 1))
         text = "\n".join(l for _, l in pending) + "\n"
         why = None
         try:
-            p = subprocess.run([exe], input=text, capture_output=True, text=True, env=env, timeout=timeout)
+            p = subprocess.run([exe], input=text, capture_output=True, text=True, env=env, timeout=tmo)
             out, err, rc = p.stdout, p.stderr, p.returncode
             if rc != 0:
                 why = "exit status %d" % rc
@@ -116,7 +120,8 @@ def run_c(exe, lines, asan=False, timeout=120):
             err = (e.stderr or b"")
             out = out.decode("utf-8", "replace") if isinstance(out, bytes) else out
             err = err.decode("utf-8", "replace") if isinstance(err, bytes) else err
-            why = "no termination within %ds" % timeout
+            why = "no termination within %ds" % tmo
+            hangs += 1
         res, begun = parse_out(out)
         results.update(res)
         if asan and err:
@@ -144,6 +149,14 @@ def run_c(exe, lines, asan=False, timeout=120):
         idx = [i for i, (cid, _) in enumerate(pending) if cid == bad]
         pending = pending[idx[0] + 1:] if idx else []
         restarts += 1
+        if hangs >= 2:
+            if abort_flag:
+                try:
+                    open(abort_flag, "w").write("hang\n")
+                except OSError:
+                    pass
+            incidents.append((None, "skipped", "remaining cases of this run skipped after 2 hangs"))
+            break
     return results, incidents
 
 
@@ -563,8 +576,9 @@ def evaluate(exes, cases):
         elif t == "cb":
             case["_cb"] = sched("CB", case, case, c=False, a=False)
 
-    cres, cinc = run_c(exes["c"], c_lines)
-    ares, ainc = run_c(exes["asan"], a_lines, asan=True) if exes.get("asan") else ({}, [])
+    af = exes.get("abort")
+    cres, cinc = run_c(exes["c"], c_lines, abort_flag=af)
+    ares, ainc = run_c(exes["asan"], a_lines, asan=True, abort_flag=af) if exes.get("asan") else ({}, [])
     mres = run_model(exes["drv"], m_lines)
     if "_error" in mres:
         acc.failure("model driver failed: " + mres["_error"], {"op": "model", "oracle": "driver"}, cases[0], False)
@@ -597,8 +611,8 @@ def evaluate(exes, cases):
             # probes of a known-UB class never run in the unsanitised build
             cid = sched("CO", case, pl, c=not probe, a=True)
             case["_co"].append((cid, src, sym, perm))
-    cres2, cinc2 = run_c(exes["c"], c_lines)
-    ares2, ainc2 = run_c(exes["asan"], a_lines, asan=True) if exes.get("asan") else ({}, [])
+    cres2, cinc2 = run_c(exes["c"], c_lines, abort_flag=af)
+    ares2, ainc2 = run_c(exes["asan"], a_lines, asan=True, abort_flag=af) if exes.get("asan") else ({}, [])
     mres2 = run_model(exes["drv"], m_lines)
     cres.update(cres2); ares.update(ares2); mres.update(mres2)
     cinc += cinc2; ainc += ainc2
@@ -650,6 +664,9 @@ def evaluate(exes, cases):
     # ---------------------------------------------------------------- incidents (crash / hang / sanitizer)
     for (inc, build) in ((cinc, "O2"), (ainc, "asan")):
         for cid, what, detail in inc:
+            if what == "skipped":
+                acc.corr_inc("C runs skipped after repeated hangs")
+                continue
             if cid is None or cid not in info:
                 acc.failure("C harness failure (%s build): %s" % (build, detail), {"op": "harness", "oracle": what}, cases[0], False)
                 continue
@@ -919,6 +936,8 @@ def strip(case):
 def eval_job(job):
     exes, spec = job
     try:
+        if exes.get("abort") and os.path.exists(exes["abort"]):
+            return {"fail": [], "corr": {"jobs skipped after repeated hangs of the C code": 1}, "hist": {}, "keys": [], "samples": []}
         if spec["t"] == "exh":
             cases = expand_exhaustive(spec)
         else:
@@ -1036,7 +1055,7 @@ def report(ctx, exes, results, do_shrink=True):
         ctx.log("FAIL x%d %s: %s" % (f["count"], ks, f["what"][:400]))
         if f["found"]:
             case = f["case"]
-            if do_shrink and ctx.match_known(f["key"]) is None:
+            if do_shrink and ctx.match_known(f["key"]) is None and not f["what"].startswith("hang"):
                 try:
                     case = shrink(exes, f)
                 except Exception as e:
@@ -1112,10 +1131,11 @@ def run(ctx):
         probes.append({"t": "pat", "kind": "probe-n0", "m": m_, "n": 0, "colptr": [0], "rowind": [], "orders": [],
                        "co": [[[], 0]] + ([[[], 1]] if m_ == 0 else []), "probe": True})
     exes["tall"] = exes["n0"] = False
-    pres = [evaluate(exes, [c]) for c in probes]
-    for r in pres:
-        for f in r["fail"]:
-            f["case"] = strip(f["case"])
+    exes["abort"] = os.path.join(ctx.bdir, "abort-%d" % os.getpid())
+    if os.path.exists(exes["abort"]):
+        os.unlink(exes["abort"])
+    with ProcessPoolExecutor(max_workers=min(vf.NCPU, len(probes))) as ex:
+        pres = list(ex.map(eval_job, [(exes, {"t": "cases", "cases": [c]}) for c in probes]))
     cls_bad = set(f["key"].get("class") for r in pres for f in r["fail"])
     exes["tall"] = "m>n" not in cls_bad and not any(f["case"].get("m", 0) > f["case"].get("n", 0) for r in pres for f in r["fail"])
     exes["n0"] = "n=0" not in cls_bad and not any(f["case"].get("n", 1) == 0 for r in pres for f in r["fail"])
@@ -1175,6 +1195,11 @@ def run(ctx):
     with ProcessPoolExecutor(max_workers=min(vf.NCPU, 16)) as ex:
         results = list(ex.map(eval_job, [(exes, jobs[i]) for i in order]))
     ctx.log("evaluated in %.1fs" % (time.time() - t))
+    aborted = os.path.exists(exes["abort"])
+    if aborted:
+        os.unlink(exes["abort"])
+        ctx.log("the C code hung repeatedly: remaining jobs were skipped")
+    exes["abort"] = None
     nbad = report(ctx, exes, pres + results)
     ctx.cov["traces_validated_against_impl"] = sum(v for k, v in ctx.cov["correspondence"].items() if "= model" in k)
     ctx.log("failures: %d; correspondence: %s" % (nbad, json.dumps(ctx.cov["correspondence"], indent=0)))
